@@ -126,3 +126,29 @@ void harness_index_buffer_encode(void)
 	check_index_bytes(out, out_pos);
 	WITNESS("encoded");
 }
+
+/* Tail of the Index (Index Padding + CRC32) from ANY state of the running CRC, with the
+ * output cut at any point: the CRC32 field holds the CRC of everything before it, once. */
+void harness_index_crc_tail(void)
+{
+	lzma_index_coder c;
+	memset(&c, 0, sizeof(c));
+	c.index = (const lzma_index *)&the_index;
+	c.sequence = SEQ_PADDING;
+	c.pos = nd_size() % 4;                 /* padding bytes still to write */
+	c.crc32 = nd_u32();                    /* CRC (chaining hash) of the Index bytes written by earlier calls */
+	const size_t pad = c.pos; const uint32_t crc0 = c.crc32;
+	uint8_t out[8]; size_t op = 0;
+	size_t cut = nd_size(); ASSUME(cut <= 7);
+	lzma_ret r = index_encode(&c, NULL, NULL, NULL, 0, out, &op, cut, LZMA_RUN);
+	if (cut < pad + 4) {
+		CHECK(r == LZMA_OK && op == cut, "output space exhausted: everything given was used, more needed");
+		r = index_encode(&c, NULL, NULL, NULL, 0, out, &op, 8, LZMA_RUN);
+	}
+	CHECK(r == LZMA_STREAM_END && op == pad + 4, "padding and CRC32 complete");
+	uint32_t want = crc0;
+	for (size_t i = 0; i < 3; ++i) if (i < pad) { CHECK(out[i] == 0, "Index Padding is zero"); want += 1u; }
+	CHECK(spec_le32(out + pad) == want, "CRC32 field = CRC of all preceding Index bytes, each counted once, whatever the output slicing");
+	if (cut > pad && cut < pad + 4) WITNESS("output ended inside the CRC32 field");
+	if (cut < pad) WITNESS("output ended inside the padding");
+}
